@@ -80,6 +80,7 @@ VSsetfields(int32 vkey, const char *fields)
     DYN_VWRITELIST *wlist;
     vsinstance_t   *w;
     VDATA          *vs;
+    int             building  = FALSE; /* TRUE while the write list is being filled */
     int             ret_value = FAIL;
 
     /* check if a NULL field list is passed in, then return with
@@ -133,6 +134,9 @@ VSsetfields(int32 vkey, const char *fields)
                     free(wlist->bptr);
                     HGOTO_ERROR(DFE_NOSPACE, FAIL);
                 }
+                for (i = 0; i < ac; i++)
+                    wlist->name[i] = NULL;
+                building = TRUE;
 
                 for (i = 0; i < ac; i++) {
                     found = FALSE;
@@ -141,11 +145,8 @@ VSsetfields(int32 vkey, const char *fields)
                         if (!strcmp(av[i], vs->usym[j].name)) {
                             found = TRUE;
 
-                            if ((wlist->name[wlist->n] = strdup(vs->usym[j].name)) == NULL) {
-                                free(wlist->name);
-                                free(wlist->bptr);
+                            if ((wlist->name[wlist->n] = strdup(vs->usym[j].name)) == NULL)
                                 HGOTO_ERROR(DFE_NOSPACE, FAIL);
-                            }
                             order                  = vs->usym[j].order;
                             wlist->type[wlist->n]  = vs->usym[j].type;
                             wlist->order[wlist->n] = order;
@@ -175,11 +176,8 @@ VSsetfields(int32 vkey, const char *fields)
                             if (!strcmp(av[i], rstab[j].name)) {
                                 found = TRUE;
 
-                                if ((wlist->name[wlist->n] = strdup(rstab[j].name)) == NULL) {
-                                    free(wlist->name);
-                                    free(wlist->bptr);
+                                if ((wlist->name[wlist->n] = strdup(rstab[j].name)) == NULL)
                                     HGOTO_ERROR(DFE_NOSPACE, FAIL);
-                                }
                                 order                  = rstab[j].order;
                                 wlist->type[wlist->n]  = rstab[j].type;
                                 wlist->order[wlist->n] = order;
@@ -206,6 +204,7 @@ VSsetfields(int32 vkey, const char *fields)
 
                 vs->marked   = TRUE; /* mark vdata as being modified */
                 vs->new_h_sz = TRUE; /* mark vdata header size being changed */
+                building     = FALSE;
 
                 HGOTO_DONE(SUCCEED); /* OK */
             }                        /* if wlist->n == 0 */
@@ -242,6 +241,17 @@ VSsetfields(int32 vkey, const char *fields)
     } /* setting read list */
 
 done:
+    if (building) { /* a refused list must not leave a partial write list behind */
+        wlist = &(vs->wlist);
+        for (i = 0; i < ac; i++)
+            free(wlist->name[i]);
+        free(wlist->name);
+        free(wlist->bptr);
+        wlist->name   = NULL;
+        wlist->bptr   = NULL;
+        wlist->n      = 0;
+        wlist->ivsize = 0;
+    }
     return ret_value;
 } /* VSsetfields */
 
